@@ -31,7 +31,7 @@ NJOBS = int(os.environ.get("VERIF_JOBS", "10"))  # measured: no throughput gain 
 class Query:
     def __init__(self, name, harness, entry, defs=None, sources=(), unwind=4, backend="minisat", paths=False, cap_s=300,
                  mem_gb=8, ll2c_cap=8, memcap=8, extra_cbmc=(), keep_ctors=False, tiers=("quick", "thorough"),
-                 nsym=None, note="", allow_undefined=(), nin=64, no_pointer_overflow=False, cross=None, expect=None, prelude=()):
+                 nsym=None, note="", allow_undefined=(), nin=64, no_pointer_overflow=False, cross=None, expect=None, prelude=(), noopt=False):
         self.name = name
         self.harness = harness
         self.entry = entry
@@ -52,6 +52,7 @@ class Query:
         self.nin = nin
         self.no_pointer_overflow = no_pointer_overflow
         self.cross = cross  # optional second back end (thorough cross-check)
+        self.noopt = noopt  # compile without -O1/instcombine (keeps arithmetic in source form, e.g. M - M % r instead of xor)
         self.prelude = list(prelude)  # extra models to link: "string" (real libstdc++ basic_string<char> instantiated), "rbtree"
         self.validate = False  # set by run_property on a seeded sample of the queries
         self.expect = expect  # None, or a label that MUST fail (used for negative self-tests of the machinery)
@@ -79,6 +80,7 @@ class Result:
         self.vcc = 0
         self.cross_status = None
         self.san_reports = []
+        self.nasserts = 0
 
 
 def sh(cmd, cwd=None, timeout=None, env=None, mem_gb=None, inp=None):
@@ -118,17 +120,25 @@ def sh(cmd, cwd=None, timeout=None, env=None, mem_gb=None, inp=None):
     return p.returncode, out.decode(errors="replace"), err.decode(errors="replace"), to, time.time() - t0, rss
 
 
-def compile_source_bc(src, outdir):
+def cxxflags(noopt):
+    if not noopt:
+        return CXXFLAGS
+    return [f for f in CXXFLAGS if f != "-O1"] + ["-O0", "-Xclang", "-disable-O0-optnone"]
+
+
+def compile_source_bc(src, outdir, noopt=False):
     """repo TU -> bitcode (cached per run in outdir)"""
-    h = hashlib.sha1(src.encode()).hexdigest()[:10]
+    h = hashlib.sha1((src + str(noopt)).encode()).hexdigest()[:10]
     out = os.path.join(outdir, os.path.basename(src).replace(".cpp", "") + "_" + h + ".bc")
     if os.path.exists(out):
         return out, ""
     path = src if os.path.isabs(src) else os.path.join(REPO, src)
-    rc, o, e, to, dt, _ = sh(["clang++-14"] + CXXFLAGS + INC + ["-c", "-emit-llvm", path, "-o", out + ".tmp"], timeout=600)
+    import threading
+    tmp = out + f".tmp{os.getpid()}_{threading.get_ident()}"
+    rc, o, e, to, dt, _ = sh(["clang++-14"] + cxxflags(noopt) + INC + ["-c", "-emit-llvm", path, "-o", tmp], timeout=600)
     if rc != 0:
         return None, e[-3000:]
-    os.rename(out + ".tmp", out)
+    os.replace(tmp, out)
     return out, ""
 
 
@@ -138,12 +148,12 @@ def build_query(q, wd, bcdir):
     hsrc = os.path.join(VERIF, "harness", q.harness)
     defs = [f"-D{k}={v}" for k, v in q.defs.items()]
     hbc = os.path.join(wd, "h.bc")
-    rc, o, e, to, dt, _ = sh(["clang++-14"] + CXXFLAGS + INC + defs + ["-c", "-emit-llvm", hsrc, "-o", hbc], timeout=600)
+    rc, o, e, to, dt, _ = sh(["clang++-14"] + cxxflags(q.noopt) + INC + defs + ["-c", "-emit-llvm", hsrc, "-o", hbc], timeout=600)
     if rc != 0:
         return None, "harness compile failed (a signature of the real code changed?):\n" + e[-3000:]
     bcs = [hbc, os.path.join(bcdir, "cxxrt.bc")] + [os.path.join(bcdir, f"cxxrt_{x}.bc") for x in q.prelude]
     for s in q.sources:
-        b, err = compile_source_bc(s, bcdir)
+        b, err = compile_source_bc(s, bcdir, q.noopt)
         if b is None:
             return None, f"compile of {s} failed:\n{err}"
         bcs.append(b)
@@ -152,7 +162,8 @@ def build_query(q, wd, bcdir):
     if rc != 0:
         return None, "llvm-link failed:\n" + e[-3000:]
     ll = os.path.join(wd, "h.2.ll")
-    rc, o, e, to, dt, _ = sh(["opt-14", f"-passes={OPT_PASSES}", "-whole-program-visibility",
+    passes = OPT_PASSES if not q.noopt else OPT_PASSES.replace("scalarizer,instcombine,", "scalarizer,sroa,mem2reg,")
+    rc, o, e, to, dt, _ = sh(["opt-14", f"-passes={passes}", "-whole-program-visibility",
                               "-wholeprogramdevirt-branch-funnel-threshold=0",
                               f"-internalize-public-api-list={q.entry}", linked, "-S", "-o", ll], timeout=600)
     if rc != 0:
@@ -240,6 +251,14 @@ def inputs_from_trace(trace):
         vals[int(m.group(1))] = x
     n = max(vals) + 1 if vals else 0
     r = [vals.get(i, 0) for i in range(n)]
+    if not r:
+        # (formula slicing removes the log array: fall back to the draws themselves, in execution order)
+        for st in trace or []:
+            if st.get("stepType") == "assignment" and st.get("lhs") == "nd" and \
+                    str(st.get("sourceLocation", {}).get("function", "")).startswith("nondet_"):
+                b = st.get("value", {}).get("binary")
+                if b is not None:
+                    r.append(int(b, 2))
     while r and r[-1] == 0:  # unread slots (the native runtime returns 0 when the vector is exhausted)
         r.pop()
     return r
@@ -408,6 +427,13 @@ def run_query(q, wd, bcdir, tier, seed, known):
         r.status, r.detail = "bound", "bound exceeded: " + "; ".join(sorted(set(bound))[:3])
         return r
     if not failed:
+        labels = set(re.findall(r'__CPROVER_assert\([^;]*?, "([^"]*)"\)', open(cfile).read()))
+        labels -= {WITNESS_LABEL, "allocation capacity bound", "mem* length bound", "llvm.trap reached", "llvm unreachable reached"}
+        labels = {l for l in labels if not l.startswith(("no body: ", "cxxrt:", "std::", "pure virtual", "abort() reached"))}
+        r.nasserts = len(labels)
+        if not labels:
+            r.status, r.detail = "vacuous", "the translated harness contains no property assertion (preprocessor shape selects nothing?)"
+            return r
         if not wit:
             r.status, r.detail = "vacuous", "witness twin unreachable: the harness never reaches its last statement"
             return r
@@ -473,7 +499,7 @@ def run_query(q, wd, bcdir, tier, seed, known):
         desc, inp = confirmed[0] if allknown else [c for c in confirmed if not known(q, c[0])][0]
         r.replay_file = os.path.join(rp, f"{q.name}.replay.json")
         json.dump({"query": q.name, "harness": q.harness, "entry": q.entry, "defs": q.defs, "sources": q.sources, "prelude": q.prelude,
-                   "keep_ctors": q.keep_ctors, "label": desc, "inputs": [hex(x) for x in inp]}, open(r.replay_file, "w"), indent=1)
+                   "keep_ctors": q.keep_ctors, "noopt": q.noopt, "label": desc, "inputs": [hex(x) for x in inp]}, open(r.replay_file, "w"), indent=1)
         r.status = "known" if allknown else "violation"
         r.detail = "; ".join(d for d, _ in confirmed) + ("  [sanitizer: " + "; ".join(r.san_reports[:2]) + "]" if r.san_reports else "")
     else:
@@ -533,7 +559,8 @@ def run_property(pid, mod, tier, seed):
         return 3
     srcs = sorted(set(s for q in qs for s in q.sources))
     with cf.ThreadPoolExecutor(NJOBS) as ex:
-        for s, (b, err) in zip(srcs, ex.map(lambda s: compile_source_bc(s, bcdir), srcs)):
+        noopt_all = all(q.noopt for q in qs) and bool(qs)
+        for s, (b, err) in zip(srcs, ex.map(lambda s: compile_source_bc(s, bcdir, noopt_all), srcs)):
             if b is None:
                 print(f"ERROR property={pid} cannot compile {s} from the working tree:\n{err}")
                 write_evidence(pid, mod, tier, seed, [], time.time() - t0, error=f"compile of {s} failed")
@@ -657,7 +684,7 @@ def write_evidence(pid, mod, tier, seed, results, wall, nviol=0, error=None):
 
 def replay(pid, mod, path):
     rp = json.load(open(path))
-    q = Query(rp["query"], rp["harness"], rp["entry"], rp["defs"], rp["sources"], keep_ctors=rp.get("keep_ctors", False), prelude=rp.get("prelude", []))
+    q = Query(rp["query"], rp["harness"], rp["entry"], rp["defs"], rp["sources"], keep_ctors=rp.get("keep_ctors", False), prelude=rp.get("prelude", []), noopt=rp.get("noopt", False))
     work = os.path.join(VERIF, ".work", pid + "_replay")
     shutil.rmtree(work, ignore_errors=True)
     bcdir = os.path.join(work, "bc")
